@@ -63,3 +63,16 @@ package event
 //@   on send * : done = true
 //@   on call (*sync.WaitGroup).Done : assert done
 //@ ghost func noMessage() kafka.Message
+
+// Partition keys: events about the same environment carry the same key - the environment id for role, environment, call,
+// integrated-service and run events (no key when it is empty), the task id for task events; unknown event types are refused.
+//@ func internalEventToKafkaEvent(internalEvent interface{}, timestamp time.Time) (kafkaEvent *pb.Event, key []byte, err error)
+//@   property C19
+//@   opt strings=uf
+//@   ensures internalEvent is *pb.Ev_RoleEvent && internalEvent.(*pb.Ev_RoleEvent) != nil && len(old(internalEvent.(*pb.Ev_RoleEvent).EnvironmentId)) > 0 ==> err == nil && bstr(key) == old(internalEvent.(*pb.Ev_RoleEvent).EnvironmentId)
+//@   ensures internalEvent is *pb.Ev_EnvironmentEvent && internalEvent.(*pb.Ev_EnvironmentEvent) != nil && len(old(internalEvent.(*pb.Ev_EnvironmentEvent).EnvironmentId)) > 0 ==> err == nil && bstr(key) == old(internalEvent.(*pb.Ev_EnvironmentEvent).EnvironmentId)
+//@   ensures internalEvent is *pb.Ev_CallEvent && internalEvent.(*pb.Ev_CallEvent) != nil && len(old(internalEvent.(*pb.Ev_CallEvent).EnvironmentId)) > 0 ==> err == nil && bstr(key) == old(internalEvent.(*pb.Ev_CallEvent).EnvironmentId)
+//@   ensures internalEvent is *pb.Ev_IntegratedServiceEvent && internalEvent.(*pb.Ev_IntegratedServiceEvent) != nil && len(old(internalEvent.(*pb.Ev_IntegratedServiceEvent).EnvironmentId)) > 0 ==> err == nil && bstr(key) == old(internalEvent.(*pb.Ev_IntegratedServiceEvent).EnvironmentId)
+//@   ensures internalEvent is *pb.Ev_RunEvent && internalEvent.(*pb.Ev_RunEvent) != nil && len(old(internalEvent.(*pb.Ev_RunEvent).EnvironmentId)) > 0 ==> err == nil && bstr(key) == old(internalEvent.(*pb.Ev_RunEvent).EnvironmentId)
+//@   ensures internalEvent is *pb.Ev_TaskEvent && internalEvent.(*pb.Ev_TaskEvent) != nil && len(key) > 0 ==> err == nil && bstr(key) == old(internalEvent.(*pb.Ev_TaskEvent).Taskid)
+//@   ensures !(internalEvent is *pb.Ev_RoleEvent) && !(internalEvent is *pb.Ev_EnvironmentEvent) && !(internalEvent is *pb.Ev_CallEvent) && !(internalEvent is *pb.Ev_IntegratedServiceEvent) && !(internalEvent is *pb.Ev_RunEvent) && !(internalEvent is *pb.Ev_TaskEvent) ==> key == nil
